@@ -7,6 +7,12 @@ ROOT = os.path.dirname(os.path.dirname(os.path.abspath(__file__)))
 TECH = "deterministic simulation with fault injection"
 
 CLAIMED = {
+    "C01": dict(
+        text="Seeded simulation of one hostile / corrupted / fuzzed document (32 shape generators incl. nesting knobs up to 2e5, non-UTF-8 bytes at 24 syntactic positions, corrupted real documents, dictionary attribute fuzz) under a configuration with limits <= defaults and a stream fault plan (chunking, EINTR, short writes, Ok(0), hard read/write errors at drawn offsets), driven through transform_str, transform_stream over fault-injecting BufRead/Write, cli::run in-process, the axum Router in-process, the real svgdx child process and (thorough) a real svgdx-server child, on 2 MiB / 8 MiB simulated threads. Oracles: every front-end returns Ok or Err (exit 0/1/2 with a message, HTTP 2xx/4xx); no panic, no process abort (workers are contained and restarted by the driver), no hang (3e6 element-evaluation step budget, 12 s CPU budget); hard stream errors surface as Err with accepted bytes a prefix of the fault-free output; transparent faults leave the result byte-identical.",
+        note="'Every byte sequence' is sampled, not enumerated. Polynomial (quadratic/cubic) cost in one attribute's length or a use-chain's length is measured in DESIGN.md but not asserted: the CPU budget is a net for non-termination and exponential blow-up, and generators cap such shapes.",
+        technique=TECH + ": fault-injecting BufRead/Write seams, stream corruption, hostile workload shapes, process-level abort/hang containment with seeded replay, step-budget bounded liveness",
+        design="DESIGN.md §4 C01",
+    ),
     "C06": dict(
         text="Seeded simulation of incarnation histories: the same (document, configuration) is executed on fresh threads whose OS entropy (every RandomState hash seed, via an interposed getrandom) and wall clock (interposed clock_gettime) are re-armed from the run seed, repeated on one thread, and in real svgdx child processes with their own entropy, clock, environment and cwd; all outputs / error Display strings must be byte-equal (local-style id masked when the clock differs). Exploration: evidence, not proof.",
         note="Trusts that the libc interposer reaches every RandomState and SystemTime (self-tested in every worker). CLOCK_MONOTONIC and ASLR are not simulated. The CLI's Debug rendering of errors is not compared.",
@@ -56,7 +62,6 @@ NOT_APPLICABLE = {
 }
 
 PENDING = {
-    "C01": "check under construction in this session (planned: claimed, see DESIGN.md §4); not claimed until the engine is committed",
     "C07": "check under construction in this session (planned: claimed, see DESIGN.md §4); not claimed until the engine is committed",
 }
 
